@@ -979,6 +979,9 @@ def gen_sentence(rng, lang):
                 parts.append('Adv("%s")' % rng.choice(["ici", "aujourd'hui", "hier", "encore", "aussi", "bien"]))
             if rng.random() < 0.1:
                 parts.append('SP(C("%s"), %s, VP(V("%s")))' % (rng.choice(FR_C), subj(), rng.choice(FR_V)))
+            if depth < 1 and rng.random() < 0.12:
+                return 'VP(V("%s"), VP(V("%s").t("b"), %s))' % (rng.choice(FR_GOV), rng.choice(FR_INF),
+                                                               rng.choice([np(depth + 1), 'Pro("moi").c("acc").pe(%d)' % rng.choice([1, 2])]))
             return "VP(%s)" % ", ".join(parts)
 
         def subj():
@@ -1109,6 +1112,53 @@ def gen_sentence(rng, lang):
         return np_e(0)
     subj_e = np_e(0) if rng.random() < 0.6 else 'Pro("I").pe(%d)%s' % (rng.choice([1, 2, 3]), rng.choice(['', '.n("p")']))
     return opt("S(%s, %s)%s" % (subj_e, vp_e(), typ_e()), 0.1)
+
+
+FR_GOV = ["vouloir", "aller", "pouvoir", "devoir", "savoir", "venir"]
+FR_INF = ["aimer", "écouter", "aider", "entendre", "ouvrir", "habiter", "honorer", "oublier", "haïr", "voir", "manger"]
+DT_OPTS = ['', '.dOpt({"hour":False,"minute":False,"second":False})', '.dOpt({"day":False,"hour":False,"minute":False,"second":False})',
+           '.dOpt({"det":False})', '.dOpt({"nat":False})', '.dOpt({"year":False,"hour":False,"minute":False,"second":False})',
+           '.dOpt({"year":False,"month":False,"date":False,"day":False})', '.dOpt({"rtime":True})']
+
+
+def family_sentences():
+    """structure families run completely in both tiers (each is the only way to reach a code path):
+    (i) a consonant-initial governing verb + a NESTED infinitive VP / comp whose clitic object (from .pro() or
+        Pro(..).c("acc")) was elided before a vowel-initial infinitive at the inner level (doPronounPlacement must not
+        move it), with negation / question, both notations;
+    (ii) à/de immediately followed by a DT (realized with its determiner: the date guard of the look-ahead) and then
+        vowel-initial material in the same flattened list"""
+    L = []
+    objs = ['NP(D("le"),N("enfant")).pro()', 'NP(D("le"),N("fille")).pro()', 'NP(D("le"),N("ami")).n("p").pro()',
+            'Pro("moi").c("acc").pe(1)', 'Pro("moi").c("acc").pe(2)', 'NP(D("le"),N("eau"))']
+    dobjs = ['comp(N("enfant"),det(D("le"))).pro()', 'comp(N("fille"),det(D("le"))).pro()', 'comp(Pro("moi").c("acc").pe(1))',
+             'comp(N("eau"),det(D("le")))']
+    subjs = ['Pro("lui").c("nom")', 'NP(D("le"),N("enfant"))', 'Pro("je").pe(2)', 'Pro("je").pe(1)']
+    dsubjs = ['subj(Pro("lui").c("nom"))', 'subj(N("enfant"),det(D("le")))', 'subj(Pro("je").pe(1))']
+    typs = ['', '.typ({"neg":True})', '.typ({"int":"yon"})', '.typ({"neg":"plus"})']
+    for g in FR_GOV:
+        for i, inf in enumerate(FR_INF):
+            for k, o in enumerate(objs):
+                for t in (typs if (i + k) % 2 == 0 else typs[:2]):
+                    L.append(("fr", 'S(%s, VP(V("%s"), VP(V("%s").t("b"), %s)))%s' % (subjs[(i + k) % len(subjs)], g, inf, o, t)))
+            for k, o in enumerate(dobjs):
+                for t in typs[:2]:
+                    L.append(("fr", 'root(V("%s"), %s, comp(V("%s").t("b"), %s))%s' % (g, dsubjs[(i + k) % len(dsubjs)], inf, o, t)))
+    d1, d2 = 'DT("2024-05-13T10:30:00")', 'DT("2024-05-17T08:00:00")'
+    after = ['Adv("environ")', 'Adv("ici")', 'Adv("encore")', 'Adv("aussi")', 'A("exact")', 'Adv("hier")', 'Adv("heureusement")', 'Adv("demain")',
+             'PP(P("à"),%s%%s)' % d2, 'PP(P("à"),NP(D("le"),N("aube")))', 'NP(D("un"),N("an"))']
+    for p in ("de", "à", "pour", "jusque"):
+        for o in DT_OPTS:
+            for a in after:
+                a1 = a % o if "%s" in a else a
+                L.append(("fr", 'PP(P("%s"),%s%s,%s)' % (p, d1, o, a1)))
+                L.append(("fr", 'S(Pro("je").pe(1),VP(V("revenir"),PP(P("%s"),%s%s,%s)))' % (p, d1, o, a1)))
+            L.append(("fr", 'PP(P("%s"),%s%s)' % (p, d1, o)))
+    return L
+
+
+# an elided form followed by a blank: the word it was elided for is gone / was never there ("de l' lundi", "à l' lundi")
+DETACHED = re.compile(r"(?<![\w'-])(?:[ldjmtsn]|qu|jusqu|lorsqu|puisqu|quoiqu)' ", re.I)
 
 
 def realize_chunk(items):
@@ -1349,6 +1399,9 @@ def run(ctx, deep=False):
     for k in range(n_gen):
         lang = "fr" if rng.random() < 0.7 else "en"
         sent.append((lang, "", gen_sentence(rng, lang)))
+    fam = family_sentences()
+    sent.extend((lang, "", src) for (lang, src) in fam)
+    dist["sentences_families(nested infinitive, à/de + DT)"] = len(fam)
     dist["sentences_seed"] = len(seeds)
     dist["sentences_generated"] = n_gen
     total_pairs = len(sweep_forms) * len(firsts)
@@ -1390,6 +1443,8 @@ def run(ctx, deep=False):
             inp = {"kind": "expr", "lang": lang, "src": src}
             if txt.startswith("EXC:"):
                 n_exc += 1      # C07's business unless doElision raised (seen in the captured call)
+            elif lang == "fr" and 'Q(' not in src and DETACHED.search(txt):
+                ctx.fail("fr:F2:elided-form-followed-by-blank", inp, "realized %r" % txt)
             for cl in calls:
                 cl["src"] = src
             all_calls.extend(calls)
